@@ -1457,6 +1457,11 @@ type refStream struct {
 
 var errInjected = errors.New("injected write failure")
 
+// errTimeout is what a net.Conn returns when its write deadline expires: a
+// net.Error with Timeout() true (callers of a plain connection may extend the
+// deadline and retry; on a stream cipher the keystream has already advanced)
+var errTimeout error = &net.OpError{Op: "write", Net: "mem", Err: os.ErrDeadlineExceeded}
+
 // faultConn injects one write fault at payload byte failAt once armed.
 type faultConn struct {
 	net.Conn
@@ -1464,7 +1469,7 @@ type faultConn struct {
 	armed  bool
 	fired  bool
 	failAt int
-	kind   string // "err-partial" | "err-nothing" | "short-nil"
+	kind   string // one of faultKinds
 	wire   []byte // bytes handed to the wire since arming
 	calls  int
 }
@@ -1484,6 +1489,10 @@ func (f *faultConn) Write(b []byte) (int, error) {
 			f.mu.Unlock()
 			return 0, errInjected
 		}
+		if kind == "timeout-nothing" {
+			f.mu.Unlock()
+			return 0, errTimeout
+		}
 		f.wire = append(f.wire, b[:k]...)
 		f.mu.Unlock()
 		n, err := f.Conn.Write(b[:k])
@@ -1492,6 +1501,9 @@ func (f *faultConn) Write(b []byte) (int, error) {
 		}
 		if kind == "short-nil" {
 			return k, nil
+		}
+		if kind == "timeout-partial" {
+			return k, errTimeout
 		}
 		return k, errInjected
 	}
@@ -1651,7 +1663,7 @@ func faultCase(c *vk.C, role string, wp sizePattern, failAt int, kind string, rn
 	}
 }
 
-var faultKinds = []string{"err-partial", "err-nothing", "short-nil"}
+var faultKinds = []string{"err-partial", "err-nothing", "short-nil", "timeout-partial", "timeout-nothing"}
 
 func runStream(t *testing.T, r *vk.Run, race bool, base int) {
 	idx := base
